@@ -77,20 +77,6 @@ def kf(kind, macro, args, impl, model):
             k, mode, toks = args[1], args[2], args[3:]
         else:
             k, mode, toks = macro, args[0], args[1:]
-        if kind == "shape":
-            # token sequences outside the documented grammar that the macro nevertheless accepts
-            ks = _kinds(toks)
-            if k in ("ubig", "ibig"):
-                return INT_SHAPE.fullmatch(ks) is None and re.fullmatch(r"(P[+-] )*[LI]( B)*( B L)?", ks) is not None
-            if k == "rbig":
-                return RAT_SHAPE.fullmatch(ks) is None
-            if k == "fbig":
-                # a second sign after the one the macro strips (fbig!(-+1)): the parser strips it again
-                text = "".join(t[2:] for t in toks)
-                return re.match(r"[+-]_?[+-]", text) is not None
-            return False
-        if kind == "ratio-base-no-denominator":
-            return k == "rbig" and re.fullmatch(r"(P~ )?(P[+-] )?[LI] B L", _kinds(toks)) is not None
         if k not in ("fbig", "dbig"):
             return False
         m = re.match(r"ok (?:\w+ )?(-?[0-9a-f]+) d:(-?\d+) d:(\d+)", model)
